@@ -160,8 +160,38 @@ Definition run_hunt (fill stp : N) (ops : list hop) : string :=
   out3 (show_bool (Nat.eqb a b) ++ " " ++ dec_of_nat a) ("T " ++ dec_of_nat b)
        (if negb hunt6_copies && known_C10_hunt6 ops then KEY_HUNT6 else "-").
 
+(* ka FILL STP OP..   hunt list of the ARP spoofer: s:<frame> = StartHunt(frame.SrcAddr) on an IPv4 frame,
+   t:<mac> = StopHunt, w = one ticker period, r:<frame> = an ARP request seen by ProcessPacket.
+   Observation: "T|F <items of every operation>" *)
+Definition parse_h4op (t : string) : option h4op :=
+  match split ":"%char t with
+  | [k] => if String.eqb k "w" then Some A4Tick else None
+  | [k; a] =>
+      if String.eqb k "s" then option_map A4Start (bytes_of_tok a)
+      else if String.eqb k "t" then option_map A4Stop (bytes_of_tok a)
+      else if String.eqb k "r" then option_map A4Request (bytes_of_tok a)
+      else None
+  | _ => None
+  end.
+
+Definition run_hunt4 (fill stp : N) (ops : list h4op) : string :=
+  let scr := fun _ : nat => {| b_pre := []; b_fill := fill; b_stp := stp |} in
+  let show := fun t => join "|" (map items t) in
+  let a := show (h4transcript hunt4_copies (c_router_ip std_cfg) (h4shared scr 0 ops)) in
+  let b := show (h4transcript hunt4_copies (c_router_ip std_cfg) (h4fresh 0 ops)) in
+  out3 (show_bool (String.eqb a b) ++ " " ++ a) ("T " ++ b) "-".
+
 Definition dispatch (kind : string) (args : list string) : string :=
-  if String.eqb kind "k6" then
+  if String.eqb kind "ka" then
+    match args with
+    | f :: s :: ops =>
+        match N_of_dec f, N_of_dec s, opt_all (map parse_h4op ops) with
+        | Some fill, Some stp, Some l => run_hunt4 fill stp l
+        | _, _, _ => BADARGS
+        end
+    | _ => BADARGS
+    end
+  else if String.eqb kind "k6" then
     match args with
     | f :: s :: ops =>
         match N_of_dec f, N_of_dec s, opt_all (map parse_hop ops) with
